@@ -19,7 +19,7 @@ ASSUMPTIONS = [
     "strict mode is judged on sibling-unique names only (duplicates among siblings are quantified for relaxed mode)",
     "the oracle never reads Resolver._match_cache; its length is sampled only to report evictions",
 ]
-GATES = ["mon.C08.relaxed", "mon.C08.strict", "mon.C08.get_agreement", "mon.C08.history", "C08.strict_raised", "C08.strict_returned_with_dead_end_free",
+GATES = ["C08.wide_node", "mon.C08.relaxed", "mon.C08.strict", "mon.C08.get_agreement", "mon.C08.history", "C08.strict_raised", "C08.strict_returned_with_dead_end_free",
          "C08.metachar_name", "C08.order_clause", "C08.dup_clause", "C08.cache_evictions_forced", "C08.opposite_ic_first", "C08.starstar", "C08.duplicate_sibling_names", "C08.after_mutation", "C08.option_attributes_reassigned", "C08.falsy_nodes"]
 
 
@@ -223,7 +223,11 @@ def run(ctx):
     for r in range(nrand):
         rng = ctx.rng("rand", r)
         n = rng.randint(1, 12)
-        par, _ = gen.random_tree(rng, n)
+        wide = r % 35 == 10 or r % 37 == 6  # nodes with more children than any index / fast-path threshold
+        if wide:
+            n = rng.choice((20, 30, 45))
+            ctx.count("C08.wide_node")
+        par, _ = gen.random_tree(rng, n, rng.choice(("star", "broom", "star")) if wide else None)
         ch = gen.children_of(par)
         sep = seps[r % len(seps)]
         ic = bool(r % 2)
